@@ -72,3 +72,47 @@ fn h_w_dhcp_roundtrip() {
         assert_eq!(m2, DhcpMessage::from_bytes(wire.into_iter()).unwrap());
     }
 }
+
+// ---------------------------------------------------------------------------
+// BOUNDED stand-in for the DHCP codec (kind=witness: never run by Kani, never counted as proved).  Run on the real code
+// only when the Verus unit `dhcp` cannot ingest a changed function (the unit is then UNDECIDED): every truncation of a set
+// of well-formed packets, single-byte corruptions of them and 20000 pseudo-random byte strings of length 0..=48 are fed to
+// the decoder: it must not panic, and whatever it accepts must re-encode to a prefix of the input (the bytes consumed).
+// ---------------------------------------------------------------------------
+//# id=witness.decoder_accepts_only_what_reencodes props=C08,C14 kind=witness pair=dhcp.DhcpMessage.from_bytes.reencoding_reproduces_the_consumed_bytes,dhcp.DhcpMessage.from_bytes.safety,dhcp.DhcpMessage.to_message.emits_the_wire_layout,dhcp.DhcpMessage.from_bytes.decoding_the_encoding_gives_back_the_value
+#[cfg(vx_replay)]
+#[test]
+fn h_w_dhcp_decode_model() {
+    use std::panic::catch_unwind;
+    fn check(input: Vec<u8>, what: &str) {
+        let inp = input.clone();
+        let r = catch_unwind(move || DhcpMessage::from_bytes(inp.into_iter()).ok().map(|m| DhcpMessage::to_message(m).map(|x| x.to_vec())));
+        match r {
+            Err(_) => panic!("decoder or encoder panicked on {what}: {input:02x?}"),
+            Ok(None) => {}
+            Ok(Some(Err(_))) => panic!("an accepted message cannot be re-encoded ({what}): {input:02x?}"),
+            Ok(Some(Ok(again))) => assert!(again.len() <= input.len() && again[..] == input[..again.len()],
+                "decoder accepted {what} but re-encoding gives different bytes\n input    {input:02x?}\n re-coded {again:02x?}"),
+        }
+    }
+    let mut good: Vec<Vec<u8>> = Vec::new();
+    for t in 1u8..=7 {
+        for (sn, bf) in [("", ""), ("srv", "boot"), ("s\u{e9}", "b"), ("", "file.img")] {
+            good.push(packet(t, sn.as_bytes(), bf.as_bytes()));
+        }
+    }
+    for p in &good {
+        check(p.clone(), "a well-formed packet");
+        for n in 0..p.len() { check(p[..n].to_vec(), "a truncated packet"); }
+        for i in 0..p.len() { for v in [0u8, 1, 0x7f, 0x80, 0xff] { let mut q = p.clone(); q[i] = v; check(q, "a corrupted packet"); } }
+        let mut q = p.clone(); q.extend_from_slice(&[1, 2, 3]); check(q, "a packet with trailing bytes");
+    }
+    let mut s: u64 = 0x1234_5678_9abc_def1;
+    let mut next = |n: usize| { s = s.wrapping_mul(6364136223846793005).wrapping_add(1442695040888963407); ((s >> 33) as usize) % n.max(1) };
+    for _ in 0..20000 {
+        let n = next(49);
+        let mut v: Vec<u8> = (0..n).map(|_| match next(4) { 0 => 0, 1 => next(8) as u8, _ => next(256) as u8 }).collect();
+        if n > 29 && next(2) == 0 { v[29] = 1 + next(7) as u8; }
+        check(v, "a pseudo-random byte string");
+    }
+}
